@@ -49,9 +49,11 @@ const RES: &[Res] = &[
   Res { url: "https://jsr.io/@s/a/1.0.0/sub.ts", honest: b"export const s = 1;\n", registry: true, declaration: false, asset: false },
   Res { url: "https://jsr.io/@s/b/1.0.0/mod.ts", honest: b"export const b = 1;\n", registry: true, declaration: false, asset: false },
   Res { url: "https://jsr.io/@s/b/1.0.0/data.txt", honest: b"registry asset\n", registry: true, declaration: false, asset: true },
+  // imported as ./seeded_from.ts, a redirect that the lockfile may have put into the graph before the build
+  Res { url: "https://x/seeded_target.ts", honest: b"export const st = 1;\n", registry: false, declaration: false, asset: false },
 ];
 
-const ROOT: &str = "import \"./m.ts\";\nawait import(\"./dyn.ts\");\nimport t from \"./asset.txt\" with { type: \"text\" };\nimport \"./redir.ts\";\nimport \"./types.d.ts\";\nimport \"./bom.ts\";\nimport \"./latin1.ts\";\nimport \"jsr:@s/a\";\nimport \"https://jsr.io/@s/b/1.0.0/mod.ts\";\nimport x from \"https://jsr.io/@s/b/1.0.0/data.txt\" with { type: \"text\" };\n";
+const ROOT: &str = "import \"./m.ts\";\nawait import(\"./dyn.ts\");\nimport t from \"./asset.txt\" with { type: \"text\" };\nimport \"./redir.ts\";\nimport \"./types.d.ts\";\nimport \"./bom.ts\";\nimport \"./latin1.ts\";\nimport \"./seeded_from.ts\";\nimport \"jsr:@s/a\";\nimport \"https://jsr.io/@s/b/1.0.0/mod.ts\";\nimport x from \"https://jsr.io/@s/b/1.0.0/data.txt\" with { type: \"text\" };\n";
 
 fn tampered(b: &[u8]) -> Vec<u8> {
   let mut v = b.to_vec();
@@ -73,11 +75,13 @@ fn body(ch: &Ch) -> Run {
     .map(|_| [Lock::Absent, Lock::Matching, Lock::Mismatching][ch.choose("manifest_lock_state", 3)])
     .collect();
   let redirect_lock = [Lock::Absent, Lock::Matching][ch.choose("redirecting_url_lock_state", 2)];
+  let lockfile_redirect = ch.choose("lockfile_holds_redirect_seeded_from_to_seeded_target", 2) == 1;
 
   let sched = Sched::new(SchedMode::Immediate);
   let loader = ScriptedLoader::new(sched);
   loader.add_text("https://x/root.ts", ROOT);
   loader.add("https://x/redir.ts", Entry::Redirect(url("https://x/target.ts")));
+  loader.add("https://x/seeded_from.ts", Entry::Redirect(url("https://x/seeded_target.ts")));
   let pa = RegPackage {
     name: "@s/a".into(),
     versions: vec![{
@@ -178,6 +182,12 @@ fn body(ch: &Ch) -> Run {
   }
   let seeded = locker.clone();
   let mut graph = ModuleGraph::new(GraphKind::All);
+  if lockfile_redirect {
+    graph.fill_from_lockfile(deno_graph::FillFromLockfileOptions {
+      redirects: [("https://x/seeded_from.ts", "https://x/seeded_target.ts")].into_iter(),
+      package_specifiers: std::iter::empty(),
+    });
+  }
   let r = build_graph(
     &mut graph,
     vec![url("https://x/root.ts")],
@@ -198,6 +208,7 @@ fn body(ch: &Ch) -> Run {
     "resources": RES.iter().enumerate().map(|(i, r)| json!({"url": r.url, "lock": format!("{:?}", locks[i]), "served": format!("{:?}", serves[i])})).collect::<Vec<_>>(),
     "manifest_lock": manifest_lock.iter().map(|l| format!("{l:?}")).collect::<Vec<_>>(),
     "redirecting_url_in_lockfile": redirect_lock == Lock::Matching,
+    "lockfile_redirect_seeded_from_to_seeded_target": lockfile_redirect,
   });
   let case = |extra: Value| {
     json!({"scenario": scenario,
